@@ -244,6 +244,19 @@ def main(argv=None):
         print(("REPRODUCED" if still else "NOT REPRODUCED") + f" property={pid} {data.get('what', '')[:300]}")
         return 1 if still else 0
     ctx = Ctx(pid, args.tier, seed, getattr(mod, "LEVEL", "exploration"))
+    # global watchdog: a check that hangs is a harness error (exit 2), never silence
+    limit = int(os.environ.get("VERIF_MAX_SECONDS", "1500" if args.tier == "quick" else "14400"))
+
+    def _watchdog():
+        print(f"harness error in {pid}: no result after {limit} s (watchdog)", flush=True)
+        try:
+            import multiprocessing as mp
+            for c in mp.active_children():
+                c.terminate()
+        finally:
+            os._exit(2)
+    import threading
+    wd = threading.Timer(limit, _watchdog); wd.daemon = True; wd.start()
     try:
         mod.run(ctx)
     except Exception:
